@@ -172,31 +172,35 @@ PROPS = {
         "not_decided": ["capacity amounts (C17)"],
     },
     "C11": {
-        "rules": [CO.r_collapse_push, only(L.r_reset, CS_ONLY), only(L.r_fresh, CS_ONLY), only(L.r_clone, CS_ONLY),
+        "rules": [CO.r_collapse_push, only(L.r_reset, CS_ONLY), only(L.r_fresh, CS_ONLY), L.r_clone,
                   only(SD.r_serde, CS_ONLY)],
         "explanation": "The collapse decision and the lifecycle of last_index are path properties of one small function and five lifecycle methods.",
         "decided": ["R-COLLAPSE: early return only on the equality-true edge against inner.index(last_index), writes nothing; otherwise one inner.push whose result is remembered and returned",
-                    "last_index is None after default/merge_regions/clear, copied by clone/clone_from, serialised"],
+                    "last_index is None after default/merge_regions/clear, copied by clone/clone_from (R-CLONE for every region it can be nested in), serialised"],
         "not_decided": ["properties of the user's PartialEq (NaN-like values)"],
     },
     "C12": {
         "rules": [only(BR.r_bracket, DENSE_ONLY), only(L.r_seed, DENSE_ONLY), only(L.r_reset, DENSE_ONLY),
-                  BR.r_reader_writer, BR.r_columns],
+                  BR.r_reader_writer, BR.r_columns, only(A.r_append, DENSE_ONLY), only(L.r_fresh, DENSE_ONLY)],
         "explanation": "Dense indices follow from one append of the end offset per push, the seeded leading 0 and index(k) = (offsets[k], offsets[k+1]).",
         "decided": ["R-BRACKET with seed 1 for ConsecutiveIndexPairs", "R-SEED: exactly one leading 0 in default/merge_regions/clear", "R-READER: index(k) reads offsets k and k+1 in order",
-                    "R-COLUMNS: ColumnsRegion returns the inner dense index unchanged, creates missing columns first, rows carry exactly their own index slice"],
+                    "R-COLUMNS: ColumnsRegion returns the inner dense index unchanged, creates missing columns first, rows carry exactly their own index slice",
+                    "R-APPEND/R-FRESH for the two types: no write or reserve path drops columns or offsets"],
         "not_decided": ["that the inner region's ranges are contiguous (its own R-BRACKET instance)"],
     },
     "C13": {
-        "rules": [B.r_bound_readitems, B.r_index_failstop, B.r_bound_stride_sites, X.r_iter_readitems],
+        "rules": [B.r_bound_readitems, B.r_index_failstop, B.r_bound_stride_sites, X.r_iter_readitems,
+                  X.r_iter_positions],
         "explanation": "Every positional access into shared storage must be dominated by a strict bound of the position against the item's own extent (the linear form len() returns).",
-        "decided": ["R-BOUND for ReadSlice/ReadSliceInner/ReadColumns/ReadColumnsInner/FlatStack get", "len/is_empty agreement", "R-ITER: iteration covers start..end"],
+        "decided": ["R-BOUND for ReadSlice/ReadSliceInner/ReadColumns/ReadColumnsInner/FlatStack get", "len/is_empty agreement", "R-ITER: iteration covers start..end; every iterator method (next and specialisations) takes its positions from the underlying range iterator"],
         "not_decided": [COMMON_ND],
     },
     "C14": {
-        "rules": [O.r_onto, O.r_owned_conversions, O.r_reborrow],
+        "rules": [O.r_onto, O.r_onto_nopanic, O.r_owned_conversions, O.r_reborrow, FW.r_forward, FW.r_sibling,
+                  HF.r_stats_and_arms, BR.r_bracket],
         "explanation": "clone_onto must overwrite its target on every path (and force its length), reborrow is the identity, borrow_as/into_owned are built from the whole value.",
-        "decided": ["R-ONTO", "R-WHOLE", "R-REBORROW"],
+        "decided": ["R-ONTO (every path overwrites the target and forces its length; no access bounded by the target's previous length)", "R-WHOLE", "R-REBORROW",
+                    "region-to-region push: Push<ReadItem> impls forward / agree with their canonical siblings (R-FORWARD, R-SIBLING, R-BRACKET, R-HUFF-ARMS)"],
         "not_decided": ["equality of the results"],
     },
     "C15": {
@@ -214,22 +218,24 @@ PROPS = {
         "assumptions": ["only meaningful in the serde feature configuration"],
     },
     "C17": {
-        "rules": [AL.r_cover_merge, AL.r_cover_reserve, AL.r_reserve_items_agree, AL.r_noalloc],
+        "rules": [AL.r_cover_merge, AL.r_cover_reserve, AL.r_reserve_items_agree, AL.r_reserve_exact_count, AL.r_noalloc],
         "explanation": "Pre-sizing must cover every storage field from the same-named field of the sources; push paths of non-coded regions build no temporaries and never exact-fit.",
         "decided": ["R-COVER(merge_regions)", "R-COVER(reserve_regions)", "R-RESERVE-ITEMS", "R-NOALLOC / R-AMORTISED"],
         "not_decided": ["the amounts themselves, allocator call counts, the O(log n) bound"],
     },
     "C18": {
-        "rules": [L.r_cover_heap, todo({"heap_size"})],
+        "rules": [L.r_cover_heap, L.r_retain, todo({"heap_size"})],
         "explanation": "heap_size must forward the caller's callback to every storage field and report (len-derived, capacity-derived) in that order.",
-        "decided": ["R-COVER(heap_size)", "R-TODO"],
+        "decided": ["R-COVER(heap_size)", "R-RETAIN: clear() never replaces a storage whose capacity is reported", "R-TODO"],
         "not_decided": ["the byte lower bound against a reference model"],
     },
     "C19": {
-        "rules": [c19_freeze, X.r_index_types],
+        "rules": [c19_freeze, X.r_index_types, A.r_noheap_until_spill, only(BR.r_bracket, DENSE_ONLY),
+                  only(L.r_seed, DENSE_ONLY)],
         "explanation": "Cheapest-first order of the representations is a guard property; the zero-heap claim for Stride follows from its field types.",
         "decided": ["R-GUARD: the cheap representation is attempted whenever the expensive one is still empty, and the first spill happens only after that attempt failed",
-                    "type inventory: Stride has only usize fields; IndexList stores u32 in S and u64 in L"],
+                    "type inventory: Stride has only usize fields; IndexList stores u32 in S and u64 in L",
+                    "R-NOHEAP: the spill list gets no capacity before something spilled", "dense outward indices of ConsecutiveIndexPairs (R-BRACKET/R-SEED) keep FlatStack's own indices strided"],
         "not_decided": ["that Stride::push accepts every strided/saturated sequence (value-level)"],
     },
     "C20": {
